@@ -9,7 +9,7 @@ PROP = {
     "rule": "cases = documents (corpus snippets incl. doc comments and markdown, mutated corpus, soup) x 9 whole-document requests (semanticTokens, documentSymbol, foldingRange, documentLink, documentColor, codeLens, inlayHint, formatting, pull diagnostics) + 9 position requests at 12 sampled token boundaries (hover, definition, references, documentHighlight, selectionRange, completion, prepareRename, rename, codeAction); "
             "distinct = FNV of the document; non-trivial = >= 20 returned structures were validated for it",
     "min_nontrivial": {"quick": 900, "thorough": 40000},
-    "max_secs": {"quick": 600, "thorough": 1200},
+    "max_secs": {"quick": 600, "thorough": 1500},
     "require_clauses": ["validated:semanticTokens.token", "validated:documentSymbol.range", "validated:foldingRange", "validated:selectionRange", "validated:completion.textEdit", "validated:rename", "validated:references", "validated:definition", "validated:hover"],
     "assumptions": COMMON_ASSUME + ["'inside the document' uses a permissive line model (lines split at \\n, column <= UTF-16 length of the line) so that encoding questions are left to C23", "locations in other files are not judged"],
     "level_text": "Every structure the real handlers return for ~2400 (quick) documents is decoded and checked against the protocol's shape rules listed in the property.",
